@@ -219,6 +219,10 @@ func (s *SubscriptionManager[C, T]) Subscribe(clientID C, topic T) bool {
 
 			// check if the client has reached the max number of subscriptions
 			if s.maxTopicSubscriptionsPerClient != 0 && subscribedTopics.Size() >= s.maxTopicSubscriptionsPerClient {
+				// the new topic was never added to the global map and never announced,
+				// so it must not take part in the cleanup of the client
+				subscribedTopics.Delete(topic)
+
 				// cleanup the client
 				_, removedTopics, unsubscribedTopics = s.cleanupClientWithoutLocking(clientID)
 				clientDropped = true
